@@ -241,6 +241,12 @@ def fixed_expr_lists():
     L.append(("abcde", ["_ret"], [("_ret", X(O(a, b), A(O(a, b), c), n(A(O(a, b), d))))]))
     L.append(("abcde", ["_ret"], [("_ret", X(n(A(a, b)), A(n(A(a, b)), c), e))]))
     L.append(("abcde", ["_ret"], [("_ret", A(X(O(a, b, c), d), O(a, b, c), e))]))
+    # Or operands on one qubit; Not of an n-ary Or whose qubit is still referred to
+    L.append(("ab", ["_ret"], [("y", a), ("_ret", A(O(a, s("y")), b))]))
+    L.append(("ab", ["_ret"], [("y", a), ("_ret", O(a, s("y")))]))
+    L.append(("abcd", ["_ret"], [("_ret", O(A(O(a, b, c), n(O(a, b, c))), d))]))
+    L.append(("abcd", ["_ret"], [("_ret", A(O(a, b, c), O(d, n(O(a, b, c)))))]))
+    L.append(("abcd", ["_ret"], [("_ret", A(n(O(a, b, c)), O(d, n(A(n(a), n(b), n(c))))))]))
     L.append(("abc", ["_ret"], [("_ret", s("zz"))]))                     # unknown symbol: raises
     L.append(("abc", ["_ret"], [("x", A(a, s("zz"))), ("_ret", s("x"))]))  # CompilerException
     L.append(("abc", ["_ret"], [("_ret", ("i", a, b, c))]))              # ITE: CompilerException
